@@ -398,8 +398,15 @@ def _iscat(t):
 
 def typeparser_inner_regular_as_arraytype(case, why):
     """F44: from_datashape(high_level=True) turns EVERY 'N * T' into an ArrayType, not only the outermost one."""
-    return (case.get("act") == "type" and why.startswith("re-parsed type prints the same")
-            and any(n["k"] == "reg" and not n.get("ps") for n in _tnodes(case["tree"])))
+    if case.get("act") != "type":
+        return False
+    if why.startswith("re-parsed type prints the same"):
+        return any(n["k"] == "reg" and not n.get("ps") for n in _tnodes(case["tree"]))
+    # below an option the stray ArrayType is no list type any more, so the option prints as '?N * T' instead of 'option[N * T]'
+    if why.startswith("type changed by printing and re-parsing") and "option[" in why and "?" in why.split("->")[-1]:
+        pe = lambda n: all(k == "__categorical__" for k, _ in n.get("ps", []))       # prints without a parameters= clause
+        return any(n["k"] == "opt" and pe(n) and n["x"]["k"] == "reg" and not n["x"].get("ps") for n in _tnodes(case["tree"]))
+    return False
 
 
 def typeparser_categorical_regular(case, why):
